@@ -738,7 +738,7 @@ def run_iso(j1, j2, props):
 class C06(Check):
     pid = "C06"
     quick_cases = 1500
-    thorough_cases = 40000
+    thorough_cases = 15000
     rule = ("pairs (m, m), (m, renamed+shuffled m), (m, renamed+shuffled single-point mutant of m: predicate, "
             "argument target/role/added/dropped, constant, property value/added, handle constraint target/relation, "
             "individual constraint, label) and unrelated pairs, properties compared or ignored; families: random over "
